@@ -21,6 +21,8 @@ structure XCfg.GoodBase (x : XCfg) : Prop where
   threadsChecksAlive : x.threadsChecksAlive = true
   threadsSkipsEsrch : x.threadsSkipsEsrch = true
   threadsHitStartsFalse : x.threadsHitStartsFalse = true
+  nameExtendMin : x.nameExtendMin = Spec.commMax
+  nameExtendChecksPrefix : x.nameExtendChecksPrefix = true
 
 /-- the configuration of the code as it is (since 9df9f82 only character devices enter the terminal map) -/
 structure XCfg.Good (x : XCfg) : Prop extends XCfg.GoodBase x where
@@ -285,7 +287,7 @@ theorem fileOfS_none_true : fileOfS true none = .esrch := rfl
 theorem fileOfS_some (e : Bool) (r : StatRec) : fileOfS e (some r) = .content (renderStat r) := rfl
 
 theorem scan_render_sig (c : Cfg) (hg : c.Good) (x : XCfg) (hx : x.threadsSkipsVanished = true)
-    (he : x.threadsSkipsEsrch = true) (tck : Nat) (sig : Nat → Bool)
+    (he : x.threadsSkipsEsrch = true) (tck : Nat) (htck : 0 < tck) (sig : Nat → Bool)
     (recs : Nat → Option StatRec) (hwf : ∀ t r, recs t = some r → r.WF ∧ r.pid = t) :
     ∀ order : List Nat,
       threadsScan c x tck (order.map fun t => (t, fileOfS (sig t) (recs t)))
@@ -307,13 +309,14 @@ theorem scan_render_sig (c : Cfg) (hg : c.Good) (x : XCfg) (hx : x.threadsSkipsV
           Bool.true_or]
     | some r =>
       obtain ⟨hw, hp⟩ := hwf t r hr
-      have h1 := threadOne_render c hg tck r hw
+      have h1 := threadOne_render c hg tck htck r hw
       rw [hp] at h1
       simp only [List.map_cons, hr, fileOfS_some, threadsScan, h1, ih, bind, Except.bind, pure, Except.pure,
         Spec.threadsValue, List.filterMap_cons, Option.map_some, List.any_cons, Option.isNone_some,
         Bool.false_or, toOut, threadView, hp]
 
 theorem scan_render (c : Cfg) (hg : c.Good) (x : XCfg) (hx : x.threadsSkipsVanished = true) (tck : Nat)
+    (htck : 0 < tck)
     (recs : Nat → Option StatRec) (hwf : ∀ t r, recs t = some r → r.WF ∧ r.pid = t) :
     ∀ order : List Nat,
       threadsScan c x tck (order.map fun t => (t, fileOf (recs t)))
@@ -329,7 +332,7 @@ theorem scan_render (c : Cfg) (hg : c.Good) (x : XCfg) (hx : x.threadsSkipsVanis
         Bool.true_or]
     | some r =>
       obtain ⟨hw, hp⟩ := hwf t r hr
-      have h1 := threadOne_render c hg tck r hw
+      have h1 := threadOne_render c hg tck htck r hw
       rw [hp] at h1
       simp only [List.map_cons, hr, fileOf_some, threadsScan, h1, ih, bind, Except.bind, pure, Except.pure,
         Spec.threadsValue, List.filterMap_cons, Option.map_some, List.any_cons, Option.isNone_some,
